@@ -20,21 +20,60 @@ Definition oErrQ (e : qerr) : sx :=
 Definition oRes (r : res seq) : sx :=
   match r with Ok s => oOk (oSeq s) | Err e => oErrQ e end.
 
+(** Sequence results are printed with every time replaced by (time_out - time_in) (0 when
+    untouched): printing 19-digit codes dominates the evaluation time otherwise.  Pure glue;
+    harness/vt/props/c01.py [_delta] does the same on the implementation's output. *)
+Definition dNote (p : note * note) : sx :=
+  let (i, o) := p in
+  L [I (n_pitch o); I (n_vel o); I (n_start o - n_start i); I (n_end o - n_end i); I (n_instr o); I (n_prog o);
+     oB (n_drum o); I (n_qstart o); I (n_qend o); I (n_rest o)].
+Definition dKsig (p : ksig * ksig) := let (i, o) := p in L [I (ks_time o - ks_time i); I (ks_key o); I (ks_mode o)].
+Definition dText (p : text * text) :=
+  let (i, o) := p in L [I (tx_time o - tx_time i); I (tx_qstep o); oZs (tx_text o); I (tx_type o)].
+Definition dCc (p : cc * cc) :=
+  let (i, o) := p in
+  L [I (cc_time o - cc_time i); I (cc_qstep o); I (cc_num o); I (cc_val o); I (cc_instr o); I (cc_prog o); oB (cc_drum o)].
+Definition dBend (p : bend * bend) :=
+  let (i, o) := p in L [I (pb_time o - pb_time i); I (pb_bend o); I (pb_instr o); I (pb_prog o); oB (pb_drum o)].
+Definition dSect (p : sect * sect) := let (i, o) := p in L [I (sa_time o - sa_time i); I (sa_id o)].
+Definition dList {A} (f : A * A -> sx) (i o : list A) : sx :=
+  L [I (Z.of_nat (length o)); L (map f (combine i o))].
+
+(** tempos / time signatures: unchanged lists print as deltas; rewritten lists (relative
+    quantization) print in full (one entry) *)
+Definition dSeq (rel : bool) (i o : seq) : sx :=
+  L [dList dNote (s_notes i) (s_notes o);
+     (if rel then L (map oTempo (s_tempos o))
+      else dList (fun p : tempo * tempo => let (a, b) := p in L [I (tp_time b - tp_time a); I (tp_qpm b - tp_qpm a)])
+                 (s_tempos i) (s_tempos o));
+     (if rel then L (map oTsig (s_tsigs o))
+      else dList (fun p : tsig * tsig => let (a, b) := p in L [I (ts_time b - ts_time a); I (ts_num b); I (ts_den b)])
+                 (s_tsigs i) (s_tsigs o));
+     dList dKsig (s_ksigs i) (s_ksigs o); dList dText (s_texts i) (s_texts o); dList dCc (s_ccs i) (s_ccs o);
+     dList dBend (s_bends i) (s_bends o); dList dSect (s_sects i) (s_sects o);
+     I (s_total o - s_total i); I (s_qsteps o); I (s_spq o); I (s_sps o);
+     L [I (fst (s_sub o) - fst (s_sub i)); I (snd (s_sub o) - snd (s_sub i))]; I (s_tpq o); I (s_rest o - s_rest i)].
+
+Definition oResD (rel : bool) (i : seq) (r : res seq) : sx :=
+  match r with Ok o => oOk (dSeq rel i o) | Err e => oErrQ e end.
+
 Definition run (s : sx) : sx :=
   let a := fun n => xnth n s in
   match xZ (a 0%nat) with
-  | 1 => (* quantize_to_step: (t...) sps (codes) -> (steps) decoded-sps (decoded-t...) *)
-      let ts := map fdec (xZs (a 1%nat)) in let sps := fdec (xZ (a 2%nat)) in
-      L [oZs (map (fun t => q2s t sps) ts); oFloat sps; L (map oFloat ts)]
+  | 1 => (* quantize_to_step: (t...) sps (codes) -> (steps) *)
+      let sps := fdec (xZ (a 2%nat)) in
+      oZs (map (fun c => q2s (fdec c) sps) (xZs (a 1%nat)))
   | 2 => (* t spq qpm -> quantize_to_step(t, steps_per_quarter_to_steps_per_second(spq, qpm)), sps *)
       let t := fdec (xZ (a 1%nat)) in
       let sps := sps_rel (xZ (a 2%nat)) (fdec (xZ (a 3%nat))) in
       L [I (q2s t sps); oFloat sps]
   | 3 => (* quantize_note_sequence_absolute: sps seq *)
-      oRes (quantize_abs (xZ (a 1%nat)) (xSeq (a 2%nat)))
+      let i := xSeq (a 2%nat) in oResD false i (quantize_abs (xZ (a 1%nat)) i)
   | 4 => (* quantize_note_sequence: spq seq *)
-      oRes (quantize_rel (xZ (a 1%nat)) (xSeq (a 2%nat)))
+      let i := xSeq (a 2%nat) in oResD true i (quantize_rel (xZ (a 1%nat)) i)
   | 5 => (* the code before notes/C01-fix-1.diff (diagnostic only) *)
-      oRes (quantize_rel_legacy (xZ (a 1%nat)) (xSeq (a 2%nat)))
+      let i := xSeq (a 2%nat) in oResD true i (quantize_rel_legacy (xZ (a 1%nat)) i)
+  | 6 => (* decoding of a float code, echoed as (mantissa exponent) *)
+      oFloat (fdec (xZ (a 1%nat)))
   | _ => oErr 99
   end.
